@@ -13,7 +13,8 @@ use crate::common::*;
 use crate::util::*;
 use crate::wire::*;
 
-pub const SYMBOLS: [char; 4] = ['a', 'b', 'é', '😀'];
+/// 1-, 3-, 2- and 4-byte characters.
+pub const SYMBOLS: [char; 4] = ['a', '€', 'é', '😀'];
 const GRACE_NS: u64 = 10_000_000_000;
 
 pub fn sym_string(s: &[u8]) -> String {
@@ -576,16 +577,26 @@ pub fn exec_drop_race(case: &DropRaceCase, tally: &mut Tally) -> Result<(), Fail
                 return Ok(usize::MAX); // machine too loaded to set the schedule up: no verdict
             }
             let (about_tx, about_rx) = mpsc::channel::<()>();
+            let vc_at_drop = victim_calls.clone();
             let dropper = scope.spawn(move || {
                 let _ = about_tx.send(());
                 drop(victim);
+                // the drop has returned: from this instant on the subscription must stay silent
+                vc_at_drop.load(Ordering::SeqCst)
             });
             let _ = about_rx.recv_timeout(std::time::Duration::from_secs(5));
             // give the dropper a moment to reach the lock while the dispatch is still in progress
             std::thread::sleep(std::time::Duration::from_millis(15));
             let _ = release_tx.send(());
             let _ = writer.join();
-            let _ = dropper.join();
+            let at_drop = dropper.join().unwrap_or(usize::MAX - 1);
+            let now = victim_calls.load(Ordering::SeqCst);
+            if at_drop != usize::MAX - 1 && now != at_drop {
+                return Err(Failure::new(
+                    "C15/dropped-handle-still-called",
+                    format!("a subscription on prefix {prefix:?} was called {} more time(s) for key {key:?} after the drop of its handle had returned (the drop happened on another thread while a dispatch was in progress)", now - at_drop),
+                ));
+            }
         } else {
             drop(victim);
             let _ = release_tx.send(());
